@@ -238,6 +238,19 @@ func TestVerifC16(t *testing.T) {
 				}
 				gen++
 				j := &Job{Account: o.Account, Id: o.Id, Expression: o.Expr, Method: "GET", URL: fmt.Sprintf("%s/hit/%d/%s/%s/%d", srv.URL, si, o.Account, o.Id, gen)}
+				if rng.Intn(4) == 0 {
+					// a job document as a client may re-post it: it still carries the bookkeeping fields of
+					// some job (here: the time key of another live job)
+					for _, other := range all {
+						if other.deletedAt.IsZero() && (other.account != o.Account || other.id != o.Id) {
+							if got, err := c.Get(other.account, other.id); err == nil && got.TId != "" {
+								j.TId = got.TId
+								o.Expr += " (document carries the time key of " + other.account + "," + other.id + ")"
+								break
+							}
+						}
+					}
+				}
 				before := time.Now()
 				err := c.Add(j)
 				o.Err = fmt.Sprint(err)
